@@ -428,9 +428,116 @@ std::size_t pick_calls(vf::Tape& t, int P)
     }
 }
 
+// --- totals beyond 2^31: per-rank shares and end positions with a counting integrand ---------------------------
+// (an int / 32-bit slip in a share only shows there; the points are not logged, only counted)
+struct counter_engine
+{
+    using result_type = std::uint64_t;
+    std::uint64_t n = 0;
+    counter_engine() = default;
+    explicit counter_engine(std::uint64_t seed) : n(seed) {}
+    static constexpr result_type min() { return 0; }
+    static constexpr result_type max() { return ~static_cast<result_type>(0); }
+    result_type operator()() { return vf::splitmix64(n++); }
+    void discard(unsigned long long k) { n += k; }
+    friend bool operator==(counter_engine const& a, counter_engine const& b) { return a.n == b.n; }
+    friend bool operator!=(counter_engine const& a, counter_engine const& b) { return a.n != b.n; }
+    friend std::ostream& operator<<(std::ostream& o, counter_engine const& e) { return o << e.n; }
+    friend std::istream& operator>>(std::istream& i, counter_engine& e) { return i >> e.n; }
+};
+
+struct CountFn
+{
+    std::uint64_t* count;
+    std::uint64_t limit;
+    T operator()(hep::mc_point<T> const&) const
+    {
+        if (++*count > limit) { throw std::runtime_error("a rank evaluates more points than the whole iteration requests"); }
+        return T(1);
+    }
+};
+
+T unit_map(std::size_t, std::vector<T> const& rn, std::vector<T>& coords, std::vector<std::size_t> const& enabled, std::vector<T>& dens, hep::multi_channel_map action)
+{
+    if (action == hep::multi_channel_map::calculate_densities) { for (auto ch : enabled) { dens[ch] = T(1); } return T(1); }
+    coords[0] = rn[0];
+    return T(1);
+}
+
+void run_huge(vf::Ctx& c, int kind, int P, std::uint64_t total)
+{
+    using E = counter_engine;
+    std::vector<std::uint64_t> counts(P, 0);
+    std::vector<std::uint64_t> endpos(P, 0);
+    std::vector<std::uint64_t> reported(P, 0);
+    shim::World world(P);
+    std::vector<std::size_t> const calls = {static_cast<std::size_t>(total)};
+    c.desc << vf::type_name<T>::get() << " huge total=" << total << " P=" << P << (kind == 0 ? " mpi_plain" : kind == 1 ? " mpi_vegas" : " mpi_multi_channel");
+    world.run([&](int rank) {
+        CountFn fn{&counts[rank], total};
+        auto go = [](MPI_Comm, auto const&) { return true; };
+        if (kind == 0)
+        {
+            auto chk = hep::mpi_plain(&world, hep::make_integrand<T>(fn, 1), calls, hep::make_plain_chkpt<T, E>(E(0)), go);
+            endpos[rank] = chk.generator().n; reported[rank] = chk.results().at(0).calls();
+        }
+        else if (kind == 1)
+        {
+            auto chk = hep::mpi_vegas(&world, hep::make_integrand<T>(fn, 1), calls, hep::make_vegas_chkpt<T, E>(4, T(1.5), E(0)), go);
+            endpos[rank] = chk.generator().n; reported[rank] = chk.results().at(0).calls();
+        }
+        else
+        {
+            auto chk = hep::mpi_multi_channel(&world, hep::make_multi_channel_integrand<T>(fn, 1, unit_map, 1, 2), calls, hep::make_multi_channel_chkpt<T, E>(T(0), T(0.25), E(0)), go);
+            endpos[rank] = chk.generator().n; reported[rank] = chk.results().at(0).calls();
+        }
+    });
+    MPI_CHECK(ALWAYS, c, !world.hang(), MPI_SIG("hang"), world.hang_text());
+    MPI_CHECK(ALWAYS, c, world.errors().empty(), MPI_SIG("collective-mismatch"), (world.errors().empty() ? std::string() : world.errors()[0]));
+    std::uint64_t sum = 0;
+    std::uint64_t const k = vf::draws_per_canonical<T, E>() * (kind == 2 ? 2 : 1);
+    for (int r = 0; r != P; ++r)
+    {
+        std::uint64_t const expect = total / P + (static_cast<std::uint64_t>(r) < total % P ? 1 : 0);
+        MPI_CHECK(SHARE, c, counts[r] == expect, MPI_SIG("share"), "total " << total << ", " << P << " ranks: rank " << r << " evaluated " << counts[r] << " points, its share is " << expect);
+        MPI_CHECK(POS, c, endpos[r] == total * k, MPI_SIG("end-position"), "total " << total << ": rank " << r << " ends at stream position " << endpos[r] << " instead of " << total * k);
+        MPI_CHECK(DIFF, c, reported[r] == total, MPI_SIG("counters"), "calls() = " << reported[r]);
+        sum += counts[r];
+    }
+    MPI_CHECK(SHARE, c, sum == total, MPI_SIG("share-sum"), "the ranks evaluated " << sum << " points in total, requested " << total);
+    c.sub += total;
+    c.label("total>=2^31");
+    c.nontrivial = true;
+}
+
+constexpr std::uint64_t HUGE_MAGIC = 0xC16B16C16B16ull;
+
+void enumerate(vf::Enum& e)
+{
+    if (!(cat_on(SHARE) && cat_on(POS))) { return; }
+    // 2^31 + 2 calls over three ranks (PLAIN in the quick tier; all three integrators and 2^32 + 5 in the thorough tier)
+    if (!e.exec({HUGE_MAGIC, 0, 3, (1ull << 31) + 2})) { return; }
+    if (vf::thorough())
+    {
+        if (!e.exec({HUGE_MAGIC, 1, 3, (1ull << 31) + 2})) { return; }
+        if (!e.exec({HUGE_MAGIC, 2, 3, (1ull << 31) + 2})) { return; }
+        if (!e.exec({HUGE_MAGIC, 0, 5, (1ull << 32) + 7})) { return; }
+    }
+    e.space = "per-rank shares and end positions for totals of 2^31 + 2 (and 2^32 + 7) calls";
+}
+
 void run(vf::Ctx& c)
 {
     vf::Tape& t = c.t;
+    if (!t.data().empty() && t.data()[0] == HUGE_MAGIC)
+    {
+        (void) t.next();
+        int const kind = static_cast<int>(t.next() % 3);
+        int const P = 1 + static_cast<int>(t.next() % 8);
+        std::uint64_t const total = t.next();
+        run_huge(c, kind, P, total);
+        return;
+    }
     Schedule sch;
     switch (t.pick(5))
     {
@@ -486,13 +593,13 @@ void run(vf::Ctx& c)
 } // namespace
 
 #if VERIF_AS == 4
-vf::Property const vf::property = {"C04", "", run, nullptr, nullptr};
+vf::Property const vf::property = {"C04", "", run, enumerate, nullptr};
 #elif VERIF_AS == 8
 vf::Property const vf::property = {"C08", "", run, nullptr, nullptr};
 #elif VERIF_AS == 12
 vf::Property const vf::property = {"C12", "", run, nullptr, nullptr};
 #elif VERIF_AS == 16
-vf::Property const vf::property = {"C16", "", run, nullptr, nullptr};
+vf::Property const vf::property = {"C16", "", run, enumerate, nullptr};
 #elif VERIF_AS == 19
 vf::Property const vf::property = {"C19", "", run, nullptr, nullptr};
 #else
